@@ -133,7 +133,7 @@ structure Out where
   meanHi : Rat
   varLo : Rat
   varHi : Rat
-  deriving Repr, Inhabited
+  deriving Repr, Inhabited, DecidableEq
 
 /-- finite path of `_parametric_bounds_array` + `Leaf`: envelope of the rows, hull of the moments -/
 def boundsFin (es : List Entry) : Except Err Out :=
